@@ -191,6 +191,11 @@ def part(p, maxlen, qmaxlen):
     O.set_mode(mode)
     w = make_world(wname)
     lists = [list(r) for r in ratio_lists(RATIOS, maxlen)]
+    # a few longer lists (many equal shares => large undispersed remainders)
+    lists += [['i:1'] * 4, ['i:1'] * 5, ['i:1'] * 8, ['i:3'] * 7,
+              ['i:3', 'i:3', 'i:3', 'i:1', 'i:1'],
+              ['F:1/3', 'F:1/3', 'F:1/3', 'F:1/3', 'D:0.5', 'D:0.5'],
+              ['i:7', 'i:1', 'i:1', 'i:1', 'i:1', 'i:1', 'i:1']]
     if 'kg' in w.units:
         lists += [[list(x) for x in r]
                   for r in ratio_lists(QRATIOS, qmaxlen)]
